@@ -20,6 +20,21 @@
                                                  value on the stack (L grows);  at the end
                                                  `SLIDE n 1` if n = number of binds > 0
      func_body_emit_native                       FUNC_DEF; body; LINE; RET; LABEL; RETHROW
+   stage 2:
+     expr_and_emit                               a; JUMPZ F; b (at L, a was popped); JUMPZ F; INT 1;
+                                                 JUMP E; F: LABEL; INT 0; E: LABEL
+     expr_or_emit                                a; JUMPZ B; JUMP T; B: LABEL; b; JUMPZ F; T: LABEL;
+                                                 INT 1; JUMP E; F: LABEL; INT 0; E: LABEL
+     expr_while_emit                             A: LABEL; c; JUMPZ B; body; SLIDE 1 0; JUMP A;
+                                                 B: LABEL; INT 0
+     expr_do_while_emit                          A: LABEL; body; SLIDE 1 0; c; JUMPZ B; JUMP A;
+                                                 B: LABEL; INT 0
+     expr_for_emit                               init; SLIDE 1 0; A: LABEL; c; JUMPZ B; body;
+                                                 SLIDE 1 0; incr; SLIDE 1 0; JUMP A; B: LABEL; INT 0
+     expr_call_emit on the stdlib `print`        LINE; MARK ret; e at L+5 (NUM_FRAME_PTRS);
+                                                 GLOBAL_VEC 0; ID_FUNC_ADDR print; CALL; ret: LABEL
+                                                 (MARK's operand: relative to the MARK in the model,
+                                                 absolute in the real code; the tie relocates)
    The operand of LINE is a source line number; the model writes 0 and the tie does not compare
    it (the modelled VM ignores it).
 
@@ -101,6 +116,36 @@ Definition compile_items_f (cexpr : Z -> cenv -> expr -> list rinstr) :=
 Definition block_end (n : Z) : list rinstr :=
   if 0 <? n then [ins BYTECODE_SLIDE n 1] else [].
 
+(* expr_while_emit, on the compiled condition and body (expr_for_emit's loop is the same code with
+   body; SLIDE 1 0; incr as body) *)
+Definition while_code (cc cb : list rinstr) : list rinstr :=
+  ins0 BYTECODE_LABEL :: cc ++ ins BYTECODE_JUMPZ (len cb + 3) 0 :: cb ++
+  [ins BYTECODE_SLIDE 1 0; ins BYTECODE_JUMP (- (len cc + len cb + 3)) 0; ins0 BYTECODE_LABEL;
+   ins BYTECODE_INT 0 0].
+
+Definition dowhile_code (cb cc : list rinstr) : list rinstr :=
+  ins0 BYTECODE_LABEL :: cb ++ ins BYTECODE_SLIDE 1 0 :: cc ++
+  [ins BYTECODE_JUMPZ 2 0; ins BYTECODE_JUMP (- (len cb + len cc + 3)) 0; ins0 BYTECODE_LABEL;
+   ins BYTECODE_INT 0 0].
+
+Definition and_code (ca cb : list rinstr) : list rinstr :=
+  ca ++ ins BYTECODE_JUMPZ (len cb + 4) 0 :: cb ++
+  [ins BYTECODE_JUMPZ 3 0; ins BYTECODE_INT 1 0; ins BYTECODE_JUMP 3 0; ins0 BYTECODE_LABEL;
+   ins BYTECODE_INT 0 0; ins0 BYTECODE_LABEL].
+
+Definition or_code (ca cb : list rinstr) : list rinstr :=
+  ca ++ ins BYTECODE_JUMPZ 2 0 :: ins BYTECODE_JUMP (len cb + 3) 0 :: ins0 BYTECODE_LABEL :: cb ++
+  [ins BYTECODE_JUMPZ 4 0; ins0 BYTECODE_LABEL; ins BYTECODE_INT 1 0; ins BYTECODE_JUMP 3 0;
+   ins0 BYTECODE_LABEL; ins BYTECODE_INT 0 0; ins0 BYTECODE_LABEL].
+
+(* NUM_FRAME_PTRS of emit.c: the slots MARK pushes *)
+Definition num_frame_ptrs : Z := 5.
+
+Definition print_code (ca : list rinstr) : list rinstr :=
+  ins0 BYTECODE_LINE :: ins BYTECODE_MARK (len ca + 4) 0 :: ca ++
+  [ins BYTECODE_GLOBAL_VEC 0 0; ins BYTECODE_ID_FUNC_ADDR print_addr 0; ins0 BYTECODE_CALL;
+   ins0 BYTECODE_LABEL].
+
 Fixpoint compile_expr (L : Z) (ce : cenv) (e : expr) {struct e} : list rinstr :=
   match e with
   | EInt z => [ins BYTECODE_INT z 0]
@@ -108,6 +153,8 @@ Fixpoint compile_expr (L : Z) (ce : cenv) (e : expr) {struct e} : list rinstr :=
   | EVar x => [ins BYTECODE_ID_LOCAL L (cidx x ce)]
   | ENeg a => compile_expr L ce a ++ [ins0 BYTECODE_OP_NEG_INT]
   | ENot a => compile_expr L ce a ++ [ins0 BYTECODE_OP_NOT_INT]
+  | EBin And a b => and_code (compile_expr L ce a) (compile_expr L ce b)
+  | EBin Or a b => or_code (compile_expr L ce a) (compile_expr L ce b)
   | EBin op a b => compile_expr L ce a ++ compile_expr (L + 1) ce b ++ binop_code op
   | ECond c a b =>
       let ca := compile_expr L ce a in
@@ -116,6 +163,13 @@ Fixpoint compile_expr (L : Z) (ce : cenv) (e : expr) {struct e} : list rinstr :=
       ins BYTECODE_JUMP (len cb + 2) 0 :: ins0 BYTECODE_LABEL :: cb ++ [ins0 BYTECODE_LABEL]
   | EAssign l r => compile_expr L ce l ++ compile_expr (L + 1) ce r ++ [ins0 BYTECODE_OP_ASS_INT]
   | EBlock items => compile_items_f compile_expr L ce items ++ block_end (nbinds items)
+  | EWhile c b => while_code (compile_expr L ce c) (compile_expr L ce b)
+  | EDoWhile b c => dowhile_code (compile_expr L ce b) (compile_expr L ce c)
+  | EFor i c s b =>
+      compile_expr L ce i ++ ins BYTECODE_SLIDE 1 0 ::
+      while_code (compile_expr L ce c)
+                 (compile_expr L ce b ++ ins BYTECODE_SLIDE 1 0 :: compile_expr L ce s)
+  | EPrint a => print_code (compile_expr (L + num_frame_ptrs) ce a)
   | _ => []                              (* outside the fragment *)
   end.
 
@@ -136,9 +190,9 @@ Definition compile_func (fd : fdef) : list rinstr :=
   ins0 BYTECODE_FUNC_DEF :: compile_body (fd_params fd) (fd_body fd) ++
   [ins0 BYTECODE_LINE; ins0 BYTECODE_RET; ins0 BYTECODE_LABEL; ins0 BYTECODE_RETHROW].
 
-(* ---- the fragment F1 ------------------------------------------------------------------
-   int/bool expressions over parameters and let/var names: literals, names, unary - and !,
-   the non-short-circuit binary operators, ?: (= if/else), assignment to a name, blocks of
+(* ---- the fragments ------------------------------------------------------------------------
+   F1 (level 1): int/bool expressions over parameters and let/var names: literals, names, unary -
+   and !, the non-short-circuit binary operators, ?: (= if/else), assignment to a name, blocks of
    let / var / expression items that end with an expression item (the typechecker rejects other
    blocks).  Side conditions:
      - literals fit 32 bits (what the scanner accepts; the pretty-printer writes a negative
@@ -146,7 +200,8 @@ Definition compile_func (fd : fdef) : list rinstr :=
      - no operator has only literal operands (constred.c would fold it: the model does not);
      - shift counts are literals 0..31 (other counts are undefined in C; Eval.v and the VM
        handlers need not agree on them);
-     - every name is in scope (`sc`). *)
+     - every name is in scope (`sc`).
+   F2 (level 2) adds && and || (short-circuit), while / do-while / for, print(e). *)
 
 Definition is_lit (e : expr) : bool :=
   match e with EInt _ | EBool _ => true | _ => false end.
@@ -165,7 +220,7 @@ Definition shift_ok (op : binop) (b : expr) : bool :=
 Fixpoint mem_id (x : ident) (l : list ident) : bool :=
   match l with [] => false | y :: t => N.eqb x y || mem_id x t end.
 
-Definition items_F1_f (fexpr : list ident -> expr -> bool) :=
+Definition items_F_f (fexpr : list ident -> expr -> bool) :=
   fix go (sc : list ident) (l : list item) {struct l} : bool :=
   match l with
   | [] => false                                  (* a block ends with an expression item *)
@@ -174,27 +229,37 @@ Definition items_F1_f (fexpr : list ident -> expr -> bool) :=
   | IFunc _ :: _ => false
   end.
 
-Fixpoint in_F1 (sc : list ident) (e : expr) {struct e} : bool :=
+Fixpoint in_F (lv : nat) (sc : list ident) (e : expr) {struct e} : bool :=
   match e with
   | EInt z => int_lit_ok z
   | EBool _ => true
   | EVar x => mem_id x sc
-  | ENeg a => negb (is_lit a) && in_F1 sc a
-  | ENot a => negb (is_lit a) && in_F1 sc a
+  | ENeg a => negb (is_lit a) && in_F lv sc a
+  | ENot a => negb (is_lit a) && in_F lv sc a
   | EBin op a b =>
-      f1_binop op && negb (is_lit a && is_lit b) && shift_ok op b && in_F1 sc a && in_F1 sc b
-  | ECond c a b => negb (is_lit c) && in_F1 sc c && in_F1 sc a && in_F1 sc b
-  | EAssign (EVar x) r => mem_id x sc && in_F1 sc r
-  | EBlock items => items_F1_f in_F1 sc items
+      (f1_binop op || Nat.leb 2 lv) && negb (is_lit a && is_lit b) && shift_ok op b &&
+      in_F lv sc a && in_F lv sc b
+  | ECond c a b => negb (is_lit c) && in_F lv sc c && in_F lv sc a && in_F lv sc b
+  | EAssign (EVar x) r => mem_id x sc && in_F lv sc r
+  | EBlock items => items_F_f (in_F lv) sc items
+  | EWhile c b => Nat.leb 2 lv && in_F lv sc c && in_F lv sc b
+  | EDoWhile b c => Nat.leb 2 lv && in_F lv sc b && in_F lv sc c
+  | EFor i c s b => Nat.leb 2 lv && in_F lv sc i && in_F lv sc c && in_F lv sc s && in_F lv sc b
+  | EPrint a => Nat.leb 2 lv && in_F lv sc a
   | _ => false
   end.
 
-Definition items_F1 := items_F1_f in_F1.
+Definition items_F (lv : nat) := items_F_f (in_F lv).
 
-(* a function of the fragment: F1 body, no catch clauses *)
-Definition func_in_F1 (fd : fdef) : bool :=
-  items_F1 (map (fun p => fst (fst p)) (fd_params fd)) (fd_body fd) &&
+(* a function of the fragment: body in the fragment, no catch clauses *)
+Definition func_in_F (lv : nat) (fd : fdef) : bool :=
+  items_F lv (map (fun p => fst (fst p)) (fd_params fd)) (fd_body fd) &&
   match fd_catches fd, fd_catch_all fd with [], None => true | _, _ => false end.
+
+Definition in_F1 := in_F 1.
+Definition in_F2 := in_F 2.
+Definition func_in_F1 := func_in_F 1.
+Definition func_in_F2 := func_in_F 2.
 
 (* ---- unfolding equations ---------------------------------------------------------------- *)
 
@@ -212,3 +277,10 @@ Proof. reflexivity. Qed.
 Lemma compile_block : forall L ce items, compile_expr L ce (EBlock items) =
   compile_items L ce items ++ block_end (nbinds items).
 Proof. reflexivity. Qed.
+Lemma compile_for : forall L ce i c st b, compile_expr L ce (EFor i c st b) =
+  compile_expr L ce i ++ ins BYTECODE_SLIDE 1 0 ::
+  compile_expr L ce (EWhile c (EBlock [IExpr b; IExpr st])).
+Proof.
+  intros. cbn [compile_expr compile_items_f nbinds block_end]. unfold block_end. simpl (0 <? 0).
+  rewrite !app_nil_r. reflexivity.
+Qed.
